@@ -512,8 +512,9 @@ static int repair(struct snapraid_state* state, int rehash, unsigned pos, unsign
 			/* we are not really interested in DELETED, CHG (old version) and REP (old version). */
 			something_unsynced = 1;
 
+			/* note that hash_is_zero() always returns 0 with a reduced hash size */
 			if (block_state == BLOCK_STATE_CHG
-				&& hash_is_zero(failed[j].block->hash)
+				&& hash_is_filled(failed[j].block->hash, 0xFF)
 			) {
 				/* If the block was a ZERO block, restore it to the original 0 as before the 'sync' */
 				/* We do this to just allow recovering of other BLK ones */
